@@ -403,6 +403,13 @@ func withEmpties(g geom.Geometry) []geom.Geometry {
 	for _, e := range empties {
 		ins(base, e)
 	}
+	// nested: the empty member sits next to g one level down, and next to a nested copy of g
+	for _, e := range empties[:5] {
+		inner1 := geom.NewGeometryCollection([]geom.Geometry{g, e}).AsGeometry()
+		inner2 := geom.NewGeometryCollection([]geom.Geometry{e, g}).AsGeometry()
+		out = append(out, geom.NewGeometryCollection([]geom.Geometry{inner1}).AsGeometry(), geom.NewGeometryCollection([]geom.Geometry{inner2}).AsGeometry(),
+			geom.NewGeometryCollection([]geom.Geometry{geom.NewGeometryCollection([]geom.Geometry{inner2}).AsGeometry(), e}).AsGeometry())
+	}
 	// same-typed Multi* with an empty member of its member type at every position
 	switch g.Type() {
 	case geom.TypeMultiPoint:
@@ -472,6 +479,13 @@ func observe(g geom.Geometry, others []Operand) (map[string]string, string) {
 		obs["ConvexHull"] = g.ConvexHull().AsText()
 		obs["IsEmpty"] = fmt.Sprint(g.IsEmpty())
 		obs["Validate"] = fmt.Sprint(g.Validate())
+		// every encoder accepts it and its output decodes again
+		js, jerr := g.MarshalJSON()
+		_, derr := geom.UnmarshalGeoJSON(js)
+		obs["GeoJSON encodes and decodes"] = fmt.Sprint(jerr, derr)
+		_, werr := geom.UnmarshalWKT(g.AsText())
+		_, berr := geom.UnmarshalWKB(g.AsBinary())
+		obs["WKT/WKB encode and decode"] = fmt.Sprint(werr, berr)
 		x := oracle.FromGeom(g)
 		for i, o := range others {
 			k := fmt.Sprint("#", i, " ", o.WKT, " ")
